@@ -2,6 +2,7 @@
 finding (or a repaired defect). Each probe is generated, compiled and run by the real
 cff from /repo; its verdict is 'ok' or a description of what fails."""
 import os
+import re
 
 import common
 
@@ -118,6 +119,58 @@ func LocalType() (string, error) {
 }
 '''
 
+F12 = '''//go:build cff
+
+package probe
+
+import (
+	"context"
+
+	. "go.uber.org/cff"
+)
+
+// DotImport spells the directives through a dot-import of the cff package.
+func DotImport() (string, error) {
+	var out T1
+	ferr := Flow(context.Background(),
+		Params(T0{S: "x"}),
+		Results(&out),
+		Task(func(a T0) T1 { return T1{S: "dot:" + a.S} }),
+	)
+	return out.S, ferr
+}
+'''
+
+F12B = '''//go:build cff
+
+package probe
+
+import (
+	"context"
+
+	"go.uber.org/cff"
+	. "go.uber.org/cff"
+)
+
+// DotMixed has a qualified directive and one spelled through a dot-import in the same file.
+func DotMixed() (string, error) {
+	var mid, out T1
+	if err := cff.Flow(context.Background(),
+		cff.Params(T0{S: "x"}),
+		cff.Results(&mid),
+		cff.Task(func(a T0) T1 { return T1{S: "q:" + a.S} }),
+	); err != nil {
+		return "", err
+	}
+	ferr := Flow(context.Background(),
+		Params(T0{S: mid.S}),
+		Results(&out),
+		Task(func(a T0) T1 { return T1{S: "dot:" + a.S} }),
+	)
+	return out.S, ferr
+}
+'''
+
 MAIN = '''package main
 
 import (
@@ -143,6 +196,9 @@ PROBES = {
     "F8": dict(src=F8, fn="Nested", want='RESULT "inner:x" <nil>'),
     "F10": dict(src=F10, fn="LocalType", want='RESULT "local:x" <nil>', cff_args=["-genmode", "modifier"]),
     "F10base": dict(src=F10, fn="LocalType", want='RESULT "local:x" <nil>'),
+    # either outcome satisfies C13: processed correctly, or refused with a positioned diagnostic
+    "F12": dict(src=F12, fn="DotImport", want='RESULT "dot:x" <nil>', reject_ok=True),
+    "F12b": dict(src=F12B, fn="DotMixed", want='RESULT "dot:q:x" <nil>', reject_ok=True),
 }
 
 
@@ -157,6 +213,8 @@ def run_probe(name):
     os.makedirs(os.path.join(mod, "cmd"))
     open(os.path.join(mod, "cmd", "main.go"), "w").write(MAIN % pr["fn"])
     rc, out = common.run_cff(mod, "./probe", extra=pr.get("cff_args", []))
+    if rc != 0 and pr.get("reject_ok") and "panic:" not in out and re.search(r"probe\.go:\d+:\d+: ", out):
+        return "ok", ""
     if rc != 0:
         return "cff rejects or crashes on the program", out[-1500:]
     rc, o, e = common.run(["go", "build", "-o", os.path.join(mod, "probe.bin"), "./cmd"], cwd=mod, env=common.GOENV, check=False, timeout=600)
